@@ -45,7 +45,6 @@
 EXTENDS OpusConst
 
 R == INSTANCE RangeDec32 WITH CODE_BITS <- 32, SYM_BITS <- 8, UINT_BITS <- 8, WINDOW <- 32, BITRES <- 3
-S == INSTANCE SymCodes
 
 P2(n) == 2 ^ n
 Xor(a, b) == (a + b) % 2
@@ -143,6 +142,26 @@ TellFrac(c) ==
   8 * c.nbits - (8 * lg + b + (IF m > R!Correction[b + 1] THEN 1 ELSE 0))
 TellAgrees(c) == Tell(c) = c.nbits - R!IlogP1(c.rm) /\ TellFrac(c) = R!TellFracOf(c.nbits, c.rm, TRUE)
 
+\* ec_laplace_encode(fs0, decay, v), laplace.c transcribed: <<fl, fh, value after the encoder's clamping>> of 32768.
+\* (FrameHdrLap_mc checks it against the declarative Laplace model of SymCodes, which TLC is too slow to load everywhere)
+LapFreq1(fs0, decay) == ((32768 - 32 - fs0) * (16384 - decay)) \div 32768
+RECURSIVE LapSearch(_, _, _, _, _)
+LapSearch(fl, fs, i, a, decay) ==
+  IF fs > 0 /\ i < a THEN LapSearch(fl + 2 * fs + 2, (2 * fs * decay) \div 32768, i + 1, a, decay) ELSE <<fl, fs, i>>
+LapEnc(fs0, decay, v) ==
+  IF v = 0 THEN <<0, fs0, 0>>
+  ELSE LET neg == v < 0
+           a == IF neg THEN -v ELSE v
+           r == LapSearch(fs0, LapFreq1(fs0, decay), 1, a, decay)
+           fl == r[1]  fs == r[2]  i == r[3] IN
+       IF fs = 0
+       THEN LET ndi == IF neg THEN (32768 - fl + 1) \div 2 ELSE (32768 - fl) \div 2
+                di == Min(a - i, ndi - 1)
+                fl2 == fl + 2 * di + (IF neg THEN 0 ELSE 1)
+                fs2 == Min(1, 32768 - fl2)
+            IN <<fl2, fl2 + fs2, IF neg THEN -(i + di) ELSE i + di>>
+       ELSE IF neg THEN <<fl, fl + fs + 1, v>> ELSE <<fl + fs + 1, fl + 2 * (fs + 1), v>>
+
 \* [fl, fh) of ft for each kind of op
 IcdfIv(tid, ftb, s) ==
   LET T == TblById[tid]  ft == P2(ftb) IN <<IF s = 0 THEN 0 ELSE ft - T[s], ft - T[s + 1], ft>>
@@ -165,7 +184,7 @@ RcOp(c, op) ==
     [] op[1] = 2 -> LET iv == IcdfIv(op[3], op[2], op[4]) IN RcSym(c, iv[1], iv[2], iv[3])
     [] op[1] = 3 -> RcSym(c, op[4], op[4] + 1, op[2])
     [] op[1] = 4 -> RcRaw(c, op[2])
-    [] op[1] = 5 -> LET iv == S!LapInterval(op[2], op[3], op[4]) IN RcSym(c, iv[1], iv[2], 32768)
+    [] op[1] = 5 -> LET iv == LapEnc(op[2], op[3], op[4]) IN RcSym(c, iv[1], iv[2], 32768)
     [] op[1] = 7 -> RcPre(c, op[2])
     [] OTHER -> c
 
@@ -211,7 +230,7 @@ RdBit(ds, name, logp)       == Get(ds, name, <<1, logp, 0>>, Choice(ds) % 2)
 RdIcdf(ds, name, tid, ftb)  == Get(ds, name, <<2, ftb, tid>>, Choice(ds) % Len(TblById[tid]))
 RdUint(ds, name, ft)        == Get(ds, name, <<3, ft, 0>>, Choice(ds) % ft)
 RdRaw(ds, name, n)          == Get(ds, name, <<4, n, 0>>, Choice(ds) % P2(n))
-RdLap(ds, name, fs, decay)  == Get(ds, name, <<5, fs, decay>>, S!LapClamp(fs, decay, Choice(ds)))
+RdLap(ds, name, fs, decay)  == Get(ds, name, <<5, fs, decay>>, LapEnc(fs, decay, Choice(ds))[3])
 RdBody(ds, name, f, cc)     == Get(ds, name, <<6, f, cc>>, Choice(ds) % 1000000)
 
 -----------------------------------------------------------------------------
@@ -420,12 +439,14 @@ CeltEncStep(ds) ==
                                           !.ch = IF ds.ch + 1 < C THEN ds.ch + 1 ELSE 0,
                                           !.b = IF ds.ch + 1 < C THEN ds.b ELSE ds.b + 1]
               IN IF left >= 15
-                 THEN LET q == S!LapClamp(pm[pi + 1] * 128, pm[pi + 2] * 64, want) IN
+                 THEN LET q == LapEnc(pm[pi + 1] * 128, pm[pi + 2] * 64, want)[3] IN
                       Adv(Put(ds, "coarse", <<5, pm[pi + 1] * 128, pm[pi + 2] * 64, q>>), q)
                  ELSE IF left >= 2
                  THEN LET q == Max(-1, Min(want, 1)) IN Adv(Put(ds, "coarse2", <<2, 2, T_SMALL, QiToSmall(q)>>), q)
                  ELSE IF left >= 1
-                 THEN LET q == Min(0, want) IN Adv(Put(ds, "coarse1", <<1, 1, 0, IF q # 0 THEN 1 ELSE 0>>), q)
+                 THEN \* qi = IMIN(0, qi); the clamp qi = IMAX(-1, qi) (bits_left < 16, certainly true here) is skipped for i == start
+                      LET q == IF ds.b # rq.start THEN Max(-1, Min(0, want)) ELSE Min(0, want) IN
+                      Adv(Put(ds, "coarse1", <<1, 1, 0, IF q # 0 THEN 1 ELSE 0>>), q)
                  ELSE Adv(Skip(ds, "coarse0"), -1)
     [] ds.pc = "tf" ->
          IF ds.b >= rq.end THEN [ds EXCEPT !.pc = "tfsel"]
@@ -489,6 +510,19 @@ WantOf(h, rq) == [silence |-> h.silence, pf |-> h.pf, octave |-> h.octave, perio
                   nboost |-> NBoost(h.offsets, rq, 1, <<>>), trim |-> h.trim]
 
 OpsOf(ds) == [j \in 1..Len(ds.ops) |-> ds.ops[j].op]
+\* which kinds of decision a run contains, as a bit set (bit j-1: kinds[j] occurs) - used to pick behaviours that
+\* cover every kind when only a sample of the generated behaviours is replayed
+CeltKinds == << <<"silence", TRUE>>, <<"silence", FALSE>>, <<"pf", TRUE>>, <<"pf", FALSE>>, <<"octave", TRUE>>, <<"period", TRUE>>,
+                <<"gain", TRUE>>, <<"tapset", TRUE>>, <<"tapset", FALSE>>, <<"transient", TRUE>>, <<"transient", FALSE>>,
+                <<"intra", TRUE>>, <<"intra", FALSE>>, <<"coarse", TRUE>>, <<"coarse2", TRUE>>, <<"coarse1", TRUE>>, <<"coarse0", FALSE>>,
+                <<"tf", TRUE>>, <<"tf", FALSE>>, <<"tfsel", TRUE>>, <<"tfsel", FALSE>>, <<"spread", TRUE>>, <<"spread", FALSE>>,
+                <<"dyn", TRUE>>, <<"dyn", FALSE>>, <<"trim", TRUE>>, <<"trim", FALSE>> >>
+SilkKinds == << <<"vad", TRUE>>, <<"lbrrflag", TRUE>>, <<"lbrrsym", TRUE>>, <<"lbrr_pred", TRUE>>, <<"lbrr_midonly", TRUE>>,
+                <<"lbrr_frame", TRUE>>, <<"pred", TRUE>>, <<"midonly", TRUE>>, <<"midonly", FALSE>>, <<"frame", TRUE>>,
+                <<"frame_side", FALSE>> >>
+RECURSIVE SigRec(_, _, _)
+SigRec(S, kinds, j) == IF j > Len(kinds) THEN 0 ELSE (IF kinds[j] \in S THEN P2(j - 1) ELSE 0) + SigRec(S, kinds, j + 1)
+Sig(dl, kinds) == SigRec({dl[j] : j \in 1..Len(dl)}, kinds, 1)
 \* the header as a flat sequence of integers (what the conformance harness needs for the rest of the frame)
 HdrSeq(h) == <<h.silence, h.pf, h.period, h.qg, h.tapset, h.transient, h.intra, h.tfsel, h.spread, h.trim,
                h.bits, h.acr, h.skip, h.irsv, h.drsv, Len(h.tfres)>> \o h.tfres \o h.offsets \o h.coarse
@@ -529,6 +563,20 @@ MirrorOK(ds) ==
   \/ (ds.h.pf = 1 /\ AvailBytes(rq, ds.h.tell0) <= 3)
   \/ (ds.h.silence = 1 /\ ds.h.tell0 # 1)                          \* decoder-only reading of an exhausted budget
   \/ (e.ops = ds.ops /\ e.h = ds.h /\ e.dl = ds.dl /\ e.c = ds.c)
+\* Observation recorded with the model (not a clause of a listed property; FrameHdr_mc_quirk.cfg is the witness): in
+\* the one-bit tier quant_coarse_energy_impl clamps only from above (qi = IMIN(0, qi)) and the lower clamp
+\* (qi = IMAX(-1, qi)) is skipped for the first band (i == start), so an encoder that wants qi <= -2 there sends
+\* the bit 1 and goes on with its own qi while the decoder reconstructs -1: the energy state of that band differs
+\* between the two until the next intra frame.  Needs a frame whose first coarse symbol finds exactly one bit left
+\* (a hybrid frame whose speech layer used all but one bit).  EncoderKeepsDecodedValue is the theorem that fails.
+EncoderKeepsDecodedValue(ds) ==
+  LET rq == ds.rq
+      lower == [j \in 1..Len(ds.h.coarse) |-> IF ds.h.coarse[j] < 0 THEN ds.h.coarse[j] - 2 ELSE ds.h.coarse[j]]
+      e == CeltEnc([len |-> rq.len, LM |-> rq.LM, C |-> rq.C, start |-> rq.start, end |-> rq.end, pre |-> rq.pre,
+                    vals |-> rq.vals, w |-> [WantOf(ds.h, rq) EXCEPT !.coarse = lower], pfmin |-> 3]) IN
+  \* wanting lower values where the decoder saw negative ones: in the one- and two-bit tiers the same symbols go out
+  \* (the value is clamped) and the encoder must then continue with the value the decoder will reconstruct
+  (\A j \in 1..Len(ds.ops) : ds.ops[j].n # "coarse") /\ OpsOf(e) = OpsOf(ds) => e.h.coarse = ds.h.coarse
 \* ... and in the excluded post-filter corner the only difference is the tapset the decoder may have to skip
 TapsetAlwaysRead(ds) ==
   (ds.h.pf = 1 /\ AvailBytes(ds.rq, ds.h.tell0) > 3) => <<"tapset", FALSE>> \notin {ds.dl[j] : j \in 1..Len(ds.dl)}
